@@ -38,7 +38,7 @@ verus! {
 //@item solver/src/min_cost_flow_solver.rs struct MinCostFlowSolver : plain
 //@end
 
-//@skeleton solver/src/min_cost_flow_solver.rs MinCostFlowSolver::solve_for_vehicle_type : let maximal_formation_count; let number_of_vehicles_required; let lower_bound 0; let connection_upper_bound; let capacity = 417f5b63626efa05
+//@skeleton solver/src/min_cost_flow_solver.rs MinCostFlowSolver::solve_for_vehicle_type : let maximal_formation_count; let number_of_vehicles_required; let lower_bound 0; let connection_upper_bound; let capacity; let trip_node 2; closure filter_map#0; stmt "match (pred_trip_node, trip_node)" = 3d4c0f7daa87294d
 
 /// the documented stand-in for "no formation limit"
 pub open spec const UNLIMITED_FORMATION: int = 100;
